@@ -85,7 +85,7 @@ void harness(void)
 	g_out_size0 = out_size;
 	g_c = g_p = 0;
 	g_lib_calls = 0;
-	g_lib_failed = g_stalled = false;
+	g_lib_failed = g_stalled = g_fail_stalled = false;
 	/* frame state on entry: arbitrary if the adapter tracks it (field
 	 * frame_done, see proposed_fixes), else that of a fresh codec */
 #ifdef C15_HAVE_FRAME_DONE
